@@ -26,14 +26,14 @@ PROPS = {
                 gen=parse_family('C01', 3000, 40000), flavours=['c'],
                 rule='random grammars (1-5 nonterminals, nullable/recursive/ambiguous/error shapes) x sampled sentences, prefixes, mutations, random strings; every input parsed at lookahead 0,1,2 with random one_parse/cost and recovery on/off; non-trivial = distinct case text with at least one judged parse',
                 assumptions=COMMON_ASSUME + ['accepts_iff_sentence is proved for the level-0/1 model and accepts2_iff_sentence for the level-2 model, for every grammar readGrammar accepts (Props/Accepted.lean); recovery-on runs of non-sentences are judged by the recovery model; the set construction of build_new_set / expand_new_start_set / set_insert (start, derived and initial situations, cores shared by start situations) is modelled step for step at levels 0/1 (Model/BuildSet.lean) and proved to compute the abstract sets (buildPLC_eq_buildPL, acceptsC_iff_sentence); the tie compares the situations of every set with multiplicity, their order is only counted']),
-    'C02': dict(level='proof', theorem_modules=['C02', 'Accepted', 'MakeParse'], min_theorems=8, tags=['C02'], crash_counts=True,
+    'C02': dict(level='proof', theorem_modules=['C02', 'Accepted', 'MakeParse', 'MakeParseSound', 'BuildSet'], min_theorems=30, tags=['C02'], crash_counts=True,
                 gen=parse_family('C02', 3000, 40000), flavours=['c'],
                 rule='random grammars with random translations (permuted, partial, nil-padded, pass-through, empty); sentences <= 7 tokens; one_parse=1 cost=0; tree compared with the enumerated translations of all derivations',
-                assumptions=COMMON_ASSUME + ['enumeration capped at 3000 derivations per input and 9 tokens (depth_bound: the enumerator is complete for every accepted grammar)']),
-    'C03': dict(level='proof', theorem_modules=['C03', 'C02', 'MakeParse'], min_theorems=8, tags=['C03'], crash_counts=True,
+                assumptions=COMMON_ASSUME + ['enumeration capped at 3000 derivations per input and 9 tokens (depth_bound: the enumerator is complete for every accepted grammar)', 'C02 is a theorem about the step-for-step models: for every grammar readGrammar accepts and every sentence, the model of make_parse in one-parse mode, run on the parse list of the model of build_pl (levels 0/1), ends within an explicit fuel bound with a table without ALT node that denotes exactly the translation of a derivation of the input, TERM nodes carrying code and position of their tokens (accepted_makeParse_one, makeParse_one_sound, makeParse_one_total, makeParse_one_terms); the two step models are tied to the C code on every parse (identical exports)']),
+    'C03': dict(level='proof', theorem_modules=['C03', 'C02', 'MakeParse', 'MakeParseSound'], min_theorems=20, tags=['C03'], crash_counts=True,
                 gen=parse_family('C03', 3000, 40000), flavours=['c'],
                 rule='as C02 with one_parse=0: set of trees denoted by the DAG vs set of translations of all derivations',
-                assumptions=COMMON_ASSUME),
+                assumptions=COMMON_ASSUME + ['the sound half of C03 is a theorem about the step model of make_parse (makeParse_all_sound: every tree the all-parses forest denotes is the translation of a derivation of the input, for every accepted grammar and input); the complete half is false of the C code (known finding D9, makeParse_forest_incomplete) and is judged per run with the attribution rule of known_findings.txt']),
     'C04': dict(level='proof', theorem_modules=['C04', 'PruneC'], min_theorems=20, tags=['C04'], crash_counts=True,
                 gen=parse_family('C04', 3000, 40000), flavours=['c'],
                 rule='random grammars with costs 0-5 (ties included); sentences <= 7 tokens; cost flag on, one_parse in {0,1}, parse_free given or NULL; denoted set vs argmin of total cost over all translations, every cost field vs the additive law',
@@ -56,14 +56,14 @@ PROPS = {
                                        gen.gen_parse_cases(seed + 6, 1500 if tier == 'thorough' else 150, 'C09', maxlen=9, kind='stmt-list'), flavours=['c'],
                 rule='each input parsed at lookahead -3,0,1,2,7 and at several debug levels with otherwise identical flags: all observables (rc, callbacks, ambiguity flag, denoted tree set with costs) must be identical; goto-cache self-check hook on every parse',
                 assumptions=COMMON_ASSUME + ['verdict_indep_of_la012 / firstError_indep_of_la012 cover all three levels (level 2: accepts2_iff_sentence); the level-2 set construction of the C code (contexts, the in-place context fixpoint of expand_new_start_set) is modelled step for step (Model/BuildSet2.lean) and proved to compute the level-2 set model (buildPLC2_eq_buildPL2, ctxLoop_least_fixpoint, ctxLoop_order_irrelevant, acceptsC_indep_of_la012)']),
-    'C05': dict(level='proof', theorem_modules=['C05'], min_theorems=4, tags=['C05'], crash_counts=True,
+    'C05': dict(level='proof', theorem_modules=['C05', 'MakeParseSound'], min_theorems=12, tags=['C05'], crash_counts=True,
                 gen=parse_family('C05', 3000, 40000), flavours=['c'],
                 rule='ambiguity flag vs number of derivations / distinct translations, one_parse in {0,1}',
-                assumptions=COMMON_ASSUME),
-    'C10': dict(level='proof', theorem_modules=['C10', 'Generated'], min_theorems=8, tags=['C10'], crash_counts=True,
+                assumptions=COMMON_ASSUME + ['soundness of the flag is proved for the one-parse step model only under the hypothesis that no set of the parse list holds a situation twice (makeParse_one_amb_sound_partial; the C sets can hold an item twice, as a start and as a derived situation, and the example dupGrammar shows it); the rest of C05 rests on the per-run comparison with the enumerated derivations']),
+    'C10': dict(level='proof', theorem_modules=['C10', 'Generated', 'AnalysisC'], min_theorems=24, tags=['C10'], crash_counts=True,
                 gen=lambda seed, tier: gen.gen_def_cases(seed, 20000 if tier == 'thorough' else 2500), flavours=['c'],
                 rule='random (mostly defective) terminal/rule lists through the callbacks, every defect class alone and in pairs, strict in {0,1}; return code vs model, symbol flags and rules vs model',
-                assumptions=COMMON_ASSUME),
+                assumptions=COMMON_ASSUME + ['the three analysis loops of the C code (set_empty_access_derives, create_first_follow_sets, set_loop_p: pass structure, visiting order, change flags, breaks, in-place updates) are modelled step for step (Model/AnalysisC.lean) and proved to compute the abstract analysis (emptyAccessDerives_eq, firstFollowC_eq, loopC_eq, checkGrammarC_eq_built, readGrammar_eq_C); the flags they leave are compared with the library per definition']),
     'C11': dict(level='proof', theorem_modules=['C11', 'C11Yacc', 'C10', 'Generated'], min_theorems=8, tags=['C11', 'C01', 'C02', 'C03', 'C04', 'C05'], crash_counts=True,
                 gen=lambda seed, tier: gen.gen_descr_cases(seed, 20000 if tier == 'thorough' else 2000), flavours=['c'],
                 rule='descriptions printed from a random AST with random layout (whitespace, newlines, comments, optional semicolons, TERM sections anywhere, redeclarations with and without the code, explicit and implicit codes, char constants, all translation forms), 30% byte-mutated, 10% arbitrary bytes; return code, error line, terminals-with-codes and rules vs the Lean lexer/parser model; parses through the description-defined object and its callback-defined twin both judged against the model',
